@@ -7,7 +7,7 @@ from ..engines import sampler as U
 def run(ctx):
     # language-level slips in the modules the property is anchored in (engine Y)
     from ..engines import gotchas as GY
-    GY.run(ctx, ('strategies.rule', 'strategies.constructor.cartesian', 'strategies.constructor.disjoint', 'specification', 'utils'))
+    GY.run(ctx, ('strategies.rule', 'strategies.constructor.cartesian', 'strategies.constructor.disjoint', 'specification', 'utils', 'strategies.strategy'))
     ctx.floor("Y", 1)
     ctx.extra["explanation"] = (
         "static analysis (ast, no execution) of the two threshold walks and their callers: the integer "
@@ -66,3 +66,8 @@ def run(ctx):
     from ..engines import varkind as V8
     V8.v1_children_map_builders(ctx)
     ctx.floor("V1", 14)
+    # rules shared after round 11: the clause is necessary for this property as well
+    V8.v3_map_uses(ctx)
+    V8.v10_param_map(ctx)
+    ctx.floor("V3", 9)
+    ctx.floor("V10", 3)
